@@ -281,6 +281,7 @@ def run_C01(ctx, R):
     _per_config(ctx, R, _tab1_parse)
     _per_config(ctx, R, parse.tab1_depth_balance)
     _per_config(ctx, R, _inl(parse.bnd6))
+    _per_config(ctx, R, _inl(parse.out9))
     _per_config(ctx, R, parse.tab2_parse)
     _per_config(ctx, R, _only_functions(_own_cjson, PARSE_FNS, 'OWN2', 8))      # "... or a leak"
 
